@@ -99,49 +99,58 @@ func judgePSKeys(r *Run) []Finding {
 	return fs
 }
 
-func expectedKeys(s *scn.Scenario) (resStar, kamf, kint, kenc string, ok bool) {
-	c := s.Config
-	k, e1 := hex.DecodeString(c.K)
+func expectedKeys(p map[string]interface{}) (resStar, kamf, kint, kenc string, ok bool) {
+	str := func(k string) string { v, _ := p[k].(string); return v }
+	k, e1 := hex.DecodeString(str("k"))
 	var opc []byte
 	var e2 error
-	if c.OPC != "" {
-		opc, e2 = hex.DecodeString(c.OPC)
+	if str("opc") != "" {
+		opc, e2 = hex.DecodeString(str("opc"))
 	} else {
 		var op []byte
-		op, e2 = hex.DecodeString(c.OP)
+		op, e2 = hex.DecodeString(str("op"))
 		if e2 == nil {
 			opc = crypto.OPc(k, op)
 		}
 	}
-	rnd, e3 := hex.DecodeString(s.Rig["rand"].(string))
-	sqn, e4 := hex.DecodeString(s.Rig["sqn"].(string))
-	amf, e5 := hex.DecodeString(s.Rig["amf"].(string))
+	rnd, e3 := hex.DecodeString(str("rand"))
+	sqn, e4 := hex.DecodeString(str("sqn"))
+	amf, e5 := hex.DecodeString(str("amf"))
 	if e1 != nil || e2 != nil || e3 != nil || e4 != nil || e5 != nil {
 		return
 	}
-	a := crypto.Derive5GAKA(k, opc, rnd, sqn, amf, crypto.SNName(c.MCC, c.MNC), c.IMSI, []byte{0, 0})
-	nea, nia := byte(s.Rig["nea"].(float64)), byte(s.Rig["nia"].(float64))
+	a := crypto.Derive5GAKA(k, opc, rnd, sqn, amf, crypto.SNName(str("mcc"), str("mnc")), str("imsi"), []byte{0, 0})
+	nea, nia := byte(p["nea"].(float64)), byte(p["nia"].(float64))
 	return hex.EncodeToString(a.XRESStar), hex.EncodeToString(a.KAMF), hex.EncodeToString(crypto.AlgKey(a.KAMF, 2, nia)), hex.EncodeToString(crypto.AlgKey(a.KAMF, 1, nea)), true
 }
 
-// judgePSProbe compares the direct derivation with the reference formulas.
+// judgePSProbe compares every derivation of the sequence with the reference formulas.
 func judgePSProbe(r *Run) []Finding {
 	fs := rigEnded(r)
-	ctx := evInfo(r, "ctx")
-	if len(ctx) == 0 {
-		if len(fs) == 0 {
-			fs = addFinding(fs, "unobserved.ctx@probe", "the derivation result was never reported", -1)
+	probes, _ := r.Scn.Rig["probes"].([]interface{})
+	got := map[int]map[string]interface{}{}
+	for _, e := range r.Events {
+		if e.Ev == "ctx" {
+			got[e.I] = e.Info
 		}
-		return fs
 	}
-	res, kamf, kint, kenc, ok := expectedKeys(r.Scn)
-	if !ok {
-		panic("probe scenario has malformed hex")
-	}
-	c := ctx[0]
-	for _, x := range [][3]string{{"res_star", res, "RES*"}, {"kamf", kamf, "K_AMF"}, {"knasint", kint, "K_NASint"}, {"knasenc", kenc, "K_NASenc"}} {
-		if fmt.Sprint(c[x[0]]) != x[1] {
-			fs = addFinding(fs, "keys."+x[0]+"@DeriveRESstarAndSetKey", fmt.Sprintf("%s is %v, TS 33.501 Annex A gives %s (nea=%v nia=%v)", x[2], c[x[0]], x[1], r.Scn.Rig["nea"], r.Scn.Rig["nia"]), 0)
+	for i, pv := range probes {
+		p := pv.(map[string]interface{})
+		c := got[i]
+		if c == nil {
+			if len(fs) == 0 {
+				fs = addFinding(fs, "unobserved.ctx@probe", fmt.Sprintf("derivation #%d of the sequence was never reported", i), -1)
+			}
+			continue
+		}
+		res, kamf, kint, kenc, ok := expectedKeys(p)
+		if !ok {
+			panic("probe scenario has malformed hex")
+		}
+		for _, x := range [][3]string{{"res_star", res, "RES*"}, {"kamf", kamf, "K_AMF"}, {"knasint", kint, "K_NASint"}, {"knasenc", kenc, "K_NASenc"}} {
+			if fmt.Sprint(c[x[0]]) != x[1] {
+				fs = addFinding(fs, "keys."+x[0]+"@DeriveRESstarAndSetKey", fmt.Sprintf("derivation #%d of %d in this process: %s is %v, TS 33.501 Annex A gives %s (nea=%v nia=%v op-only=%v)", i, len(probes), x[2], c[x[0]], x[1], p["nea"], p["nia"], p["opc"] == ""), 0)
+			}
 		}
 	}
 	return fs
@@ -160,7 +169,7 @@ func checkC05(c *Ctx) {
 	if c.Tier == "thorough" {
 		nWS, nPS, nProbe = 40000, 100000, 100000
 	}
-	c.Rule = "evaluation = one simulated run: (i) whole-system registrations whose RES* and MACs are judged by the reference AUSF/AMF; (ii) procedure-level runs of RegisterUE for {NEA0,1,2} x {NIA1,2} after which K_AMF, K_NASint, K_NASenc and the counters of the UE context are compared with the reference AMF's context, in OPc-configured and OP-only twins that must agree; (iii) direct derivation probes for all 4 x 4 algorithm identifiers against the TS 33.501 Annex A formulas. distinct = (part, algorithm pair, OP-only?, MNC length, SUPI length); non-trivial = all"
+	c.Rule = "evaluation = one simulated run: (i) whole-system registrations whose RES* and MACs are judged by the reference AUSF/AMF; (ii) procedure-level runs of RegisterUE for {NEA0,1,2} x {NIA1,2} after which K_AMF, K_NASint, K_NASenc and the counters of the UE context are compared with the reference AMF's context, in OPc-configured and OP-only twins that must agree; (iii) sequences of 1..4 direct derivations in one process (consecutive subscribers sharing OP with different K, sharing K, or switching OPc/OP-only) for all 4 x 4 algorithm identifiers against the TS 33.501 Annex A formulas. distinct = (part, algorithm pair, OP-only?, MNC length, SUPI length); non-trivial = all"
 	c.Assume = append(c.Assume, assumptionsWS...)
 	c.Assume = append(c.Assume, "part (iii) is a direct state probe (no conversation): NEA3, NIA0 and NIA3 cannot complete a registration, they only act as key distinguishers")
 	root := kernel.New(c.Seed).Sub("c05")
@@ -205,32 +214,61 @@ func checkC05(c *Ctx) {
 
 	jobs = nil
 	for i := 0; i < nProbe; i++ {
-		s := psScenario(root, "probe", i%4, (i/4)%4, false)
-		if root.Chance(1, 3) {
-			s.Config.OPC = ""
+		s := psScenario(root, "probe", 0, 2, false)
+		// a sequence of 1..4 derivations in one process: consecutive subscribers share the operator's
+		// OP (different K), share K, or switch between OPc-configured and OP-only provisioning
+		var probes []interface{}
+		n := root.Range(1, 4)
+		var prevK, prevOP []byte
+		for q := 0; q < n; q++ {
+			k, op := boundary128(root), boundary128(root)
+			if q > 0 {
+				switch root.Intn(4) {
+				case 0:
+					op = prevOP
+				case 1:
+					k = prevK
+				case 2:
+					op = prevOP
+					k = append([]byte{}, prevK...)
+					k[root.Intn(16)] ^= 1 << uint(root.Intn(8))
+				}
+			}
+			prevK, prevOP = k, op
+			opc := crypto.OPc(k, op)
+			rnd, sqn, amf := boundary128(root), root.Bytes(6), root.Bytes(2)
+			switch root.Intn(6) {
+			case 0:
+				sqn = make([]byte, 6)
+			case 1:
+				sqn = []byte{0xff, 0xff, 0xff, 0xff, 0xff, 0xff}
+			}
+			mnc := root.Digits(2 + root.Intn(2))
+			mcc := root.Digits(3)
+			p := map[string]interface{}{"k": hexCase(root, k), "op": hexCase(root, op), "opc": hexCase(root, opc), "rand": hex.EncodeToString(rnd), "sqn": hex.EncodeToString(sqn), "amf": hex.EncodeToString(amf),
+				"mcc": mcc, "mnc": mnc, "imsi": mcc + mnc + root.Digits(root.Range(1, 12-len(mnc))), "nea": float64((i + q) % 4), "nia": float64(((i + q) / 4) % 4)}
+			if root.Chance(1, 2) {
+				p["opc"] = ""
+			} else if root.Chance(1, 2) {
+				p["op"] = hexCase(root, root.Bytes(16)) // OPc configured: OP must be ignored
+			}
+			autn := crypto.AUTN(k, opc, rnd, sqn, amf)
+			// AUTN values a network may produce include leading zero octets of SQN xor AK
+			p["autn"] = hex.EncodeToString(autn)
+			probes = append(probes, p)
 		}
-		rnd, sqn := boundary128(root), root.Bytes(6)
-		switch root.Intn(6) {
-		case 0:
-			sqn = make([]byte, 6)
-		case 1:
-			sqn = []byte{0xff, 0xff, 0xff, 0xff, 0xff, 0xff}
-		}
-		amf := root.Bytes(2)
-		k, _ := hex.DecodeString(s.Config.K)
-		var opc []byte
-		if s.Config.OPC != "" {
-			opc, _ = hex.DecodeString(s.Config.OPC)
-		} else {
-			op, _ := hex.DecodeString(s.Config.OP)
-			opc = crypto.OPc(k, op)
-		}
-		s.Rig["rand"], s.Rig["sqn"], s.Rig["amf"] = hex.EncodeToString(rnd), hex.EncodeToString(sqn), hex.EncodeToString(amf)
-		s.Rig["autn"] = hex.EncodeToString(crypto.AUTN(k, opc, rnd, sqn, amf))
-		s.Rig["nea"], s.Rig["nia"] = float64(i%4), float64((i/4)%4)
+		s.Rig["probes"] = probes
+		s.Rig["nea"], s.Rig["nia"] = probes[0].(map[string]interface{})["nea"], probes[0].(map[string]interface{})["nia"]
 		jobs = append(jobs, Job{S: s, Rig: "ps", Judge: "ps-probe", Tag: "c05-probe"})
 	}
-	c.Batch(jobs, func(j Job, r *Run, fs []Finding) { shape("probe", j.S) })
+	c.Batch(jobs, func(j Job, r *Run, fs []Finding) {
+		shape("probe", j.S)
+		n := len(j.S.Rig["probes"].([]interface{}))
+		c.Evals += n - 1
+		if n > 1 {
+			c.Probes["derivation-sequences-in-one-process"]++
+		}
+	})
 	c.sigs = shapes
 }
 
